@@ -252,6 +252,8 @@ func (sc *SpecCtx) eval(x *Sx) specVal {
 			sub = sub.withBound(b.List[0].Atom, b.List[0].Atom)
 		}
 		return specVal{fmt.Sprintf("(let (%s) %s)", strings.Join(bs, " "), sub.expand(args[1])), nil}
+	case "reveal":
+		return specVal{revealInstance(sc, args[0]), nil}
 	case "_", "as":
 		return specVal{x.String(), nil}
 	}
